@@ -16,7 +16,9 @@ use domain::new::base::name::{Name, NameBuf, RevNameBuf};
 use domain::new::base::parse::{MessageParser, ParseMessageBytes, SplitMessageBytes};
 use domain::new::base::wire::{ParseBytes, U16};
 use domain::new::base::{HeaderFlags, Message, MessageItem, QClass, QType, Question, RClass, RType, Record, UnparsedRecordData, TTL};
-use domain::new::rdata::{CName, Mx, Ns, RecordData, A};
+use domain::new::edns::{EdnsFlags, EdnsRecord};
+use domain::new::rdata::{CName, Mx, Ns, Opt, RecordData, A};
+use domain::new::base::wire::SizePrefixed;
 use dv_harness::*;
 
 // ------------------------------------------------------------ observations
@@ -728,14 +730,187 @@ fn run_script(cx: &mut Ctx, ops: &[Op], kind: &str, bufsize: usize, with_old: bo
     }
 }
 
+// ------------------------------------------------------------ EDNS
+
+#[derive(Clone, PartialEq, Debug)]
+struct Edns { udp: u16, ext: u8, ver: u8, flags: u16, do_: bool, data: Vec<u8> }
+
+fn opt_bytes(opts: &[(u16, Vec<u8>)]) -> Vec<u8> {
+    let mut v = vec![];
+    for (c, d) in opts { v.extend_from_slice(&c.to_be_bytes()); v.extend_from_slice(&(d.len() as u16).to_be_bytes()); v.extend_from_slice(d); }
+    v
+}
+
+/// old codec: Message::opt() / OptRecord
+fn edns_old(msg: &[u8]) -> Result<Option<Edns>, bool> {
+    flat(catch(|| {
+        let m = OldMessage::from_octets(msg).map_err(|_| ())?;
+        Ok(m.opt().map(|o| {
+            let mut data = vec![];
+            for x in o.opt().iter::<domain::base::opt::UnknownOptData<_>>() {
+                if let Ok(x) = x { data.extend_from_slice(&x.code().to_int().to_be_bytes()); let d: &[u8] = x.data().as_ref(); data.extend_from_slice(&(d.len() as u16).to_be_bytes()); data.extend_from_slice(d); }
+            }
+            Edns { udp: o.udp_payload_size(), ext: o.rcode(m.header()).ext(), ver: o.version(), flags: o.as_record().ttl().as_secs() as u16, do_: o.dnssec_ok(), data }
+        }))
+    }))
+}
+
+fn edns_of_new(e: &EdnsRecord<&Opt>) -> Edns {
+    Edns { udp: e.max_udp_payload.get(), ext: e.ext_rcode, ver: e.version, flags: e.flags.bits(), do_: e.flags.is_dnssec_ok(), data: (*e.data).as_bytes().to_vec() }
+}
+
+/// new codec, three ways: MessageParser item / TryFrom<Record> / EdnsRecord::split_bytes at `pos`
+fn edns_new(msg: &[u8], pos: usize) -> [Result<Option<Edns>, bool>; 3] {
+    let a = flat(catch(|| {
+        for it in MessageParser::new(msg).map_err(|_| ())? {
+            if let MessageItem::Edns(e) = it.map_err(|_| ())? { return Ok(Some(edns_of_new(&e))); }
+        }
+        Ok(None)
+    }));
+    let b = flat(catch(|| {
+        let (r, _) = Record::<NameBuf, RecordData<'_, NameBuf>>::split_message_bytes(&msg[12..], pos - 12).map_err(|_| ())?;
+        let e = EdnsRecord::<&Opt>::try_from(r).map_err(|_| ())?;
+        Ok(Some(edns_of_new(&e)))
+    }));
+    let c = flat(catch(|| {
+        use domain::new::base::wire::SplitBytes;
+        let (e, _) = EdnsRecord::<&Opt>::split_bytes(&msg[pos..]).map_err(|_| ())?;
+        Ok(Some(edns_of_new(&e)))
+    }));
+    [a, b, c]
+}
+
+fn edns_compare(cx: &mut Ctx, tag: &str, who: &str, want: &Edns, got: &Result<Option<Edns>, bool>) {
+    match got {
+        Err(true) => cx.verdict(false, if who.starts_with("old") { "panic_old" } else { "panic_new" }, tag, &format!("{} panicked", who)),
+        Err(false) | Ok(None) => cx.verdict(false, &format!("edns_unreadable_{}", if who.starts_with("old") { "old" } else { "new" }), tag, &format!("{}: no OPT record read", who)),
+        Ok(Some(g)) => {
+            cx.verdict(g.udp == want.udp, "edns_field_mismatch_udp_payload_size", tag, &format!("{}: {} expected {}", who, g.udp, want.udp));
+            cx.verdict(g.ext == want.ext, "edns_field_mismatch_ext_rcode", tag, &format!("{}: {} expected {}", who, g.ext, want.ext));
+            cx.verdict(g.ver == want.ver, "edns_field_mismatch_version", tag, &format!("{}: {} expected {}", who, g.ver, want.ver));
+            cx.verdict(g.flags == want.flags, "edns_field_mismatch_flags", tag, &format!("{}: {:04x} expected {:04x}", who, g.flags, want.flags));
+            cx.verdict(g.do_ == want.do_, "edns_field_mismatch_dnssec_ok", tag, &format!("{}: {} expected {}", who, g.do_, want.do_));
+            cx.verdict(g.data == want.data, "edns_field_mismatch_options", tag, &format!("{}: {} expected {}", who, hex(&g.data), hex(&want.data)));
+        }
+    }
+}
+
+fn edns_one(cx: &mut Ctx, want: &Edns, rcode: u8, with_q: bool, opts: &[(u16, Vec<u8>)]) {
+    cx.idx += 1;
+    if !cx.out.wants(cx.idx) { return; }
+    let tag = format!("edns udp={} ext={} ver={} flags={:04x} rcode={} q={} opt={}", want.udp, want.ext, want.ver, want.flags, rcode, with_q, hex(&want.data));
+    cx.out.begin(&tag);
+    cx.out.oracle_case(&tag, want.ext != 0 || want.ver != 0 || want.flags != 0, "edns");
+    // (1) hand-written wire
+    let mut m = header(with_q as u16, 0, 0, 1); m[3] = (m[3] & 0xf0) | (rcode & 0x0f);
+    if with_q { m.extend_from_slice(b"\x03www\x07example\x03org\x00\x00\x01\x00\x01"); }
+    let pos = m.len();
+    m.extend_from_slice(&[0, 0, 41]); m.extend_from_slice(&want.udp.to_be_bytes());
+    m.extend_from_slice(&[want.ext, want.ver]); m.extend_from_slice(&want.flags.to_be_bytes());
+    m.extend_from_slice(&(want.data.len() as u16).to_be_bytes()); m.extend_from_slice(&want.data);
+    edns_compare(cx, &tag, "old<-wire", want, &edns_old(&m));
+    for (w, r) in ["new(parser)<-wire", "new(try_from)<-wire", "new(split_bytes)<-wire"].iter().zip(edns_new(&m, pos).iter()) { edns_compare(cx, &tag, w, want, r); }
+    // (2) built by the new MessageBuilder::push_edns
+    let w2 = want.clone();
+    let built = catch(move || {
+        let mut buffer = vec![0u8; 12 + 64 + w2.data.len()];
+        let mut comp = NameCompressor::default();
+        let mut b = MessageBuilder::new(&mut buffer, &mut comp, U16::new(7), HeaderFlags::default());
+        if with_q { let n: NameBuf = "www.example.org.".parse().unwrap(); b.push_question(&Question::<&Name> { qname: &*n, qtype: QType::A, qclass: QClass::IN }).map_err(|_| ())?; }
+        let flags: EdnsFlags = *<&EdnsFlags>::parse_bytes(&w2.flags.to_be_bytes()).map_err(|_| ())?;
+        let opt: &Opt = <&Opt>::parse_bytes(&w2.data).map_err(|_| ())?;
+        b.push_edns(&EdnsRecord::<&Opt> { max_udp_payload: U16::new(w2.udp), ext_rcode: w2.ext, version: w2.ver, flags, data: SizePrefixed::new(opt) }).map_err(|_| ())?;
+        let m = b.finish();
+        let mut bytes = m.header.as_bytes().to_vec(); bytes.extend_from_slice(&m.contents);
+        Ok::<_, ()>(bytes)
+    });
+    match built {
+        Ok(Ok(bytes)) => {
+            let p = bytes.len() - 11 - want.data.len();
+            edns_compare(cx, &tag, "old<-new_builder", want, &edns_old(&bytes));
+            for (w, r) in ["new(parser)<-new_builder", "new(try_from)<-new_builder", "new(split_bytes)<-new_builder"].iter().zip(edns_new(&bytes, p).iter()) { edns_compare(cx, &tag, w, want, r); }
+        }
+        Ok(Err(())) => cx.verdict(false, "new_builder_rejects_edns", &tag, "push_edns failed"),
+        Err(p) => cx.verdict(false, "panic_new_builder", &tag, &p),
+    }
+    // (3) built by the old builder (it can only set the DO flag)
+    if want.flags & 0x7fff == 0 {
+        let (w3, o3) = (want.clone(), opts.to_vec());
+        let built = catch(move || {
+            use domain::base::iana::{OptRcode, OptionCode, Rcode};
+            use domain::dep::octseq::OctetsBuilder;
+            let mut qb = OldBuilder::new_vec().question();
+            if with_q { qb.push((OldName::<Vec<u8>>::from_octets(b"\x03www\x07example\x03org\x00".to_vec()).unwrap(), Rtype::A)).map_err(|_| ())?; }
+            let mut ab = qb.additional();
+            ab.opt(|o| {
+                o.set_udp_payload_size(w3.udp);
+                o.set_rcode(OptRcode::from_parts(Rcode::masked_from_int(rcode & 0x0f), w3.ext));
+                o.set_version(w3.ver);
+                o.set_dnssec_ok(w3.do_);
+                for (c, d) in &o3 { o.push_raw_option(OptionCode::from_int(*c), d.len() as u16, |t| t.append_slice(d))?; }
+                Ok(())
+            }).map_err(|_| ())?;
+            Ok::<_, ()>(ab.finish())
+        });
+        match built {
+            Ok(Ok(bytes)) => {
+                let p = bytes.len() - 11 - want.data.len();
+                edns_compare(cx, &tag, "old<-old_builder", want, &edns_old(&bytes));
+                for (w, r) in ["new(parser)<-old_builder", "new(try_from)<-old_builder", "new(split_bytes)<-old_builder"].iter().zip(edns_new(&bytes, p).iter()) { edns_compare(cx, &tag, w, want, r); }
+            }
+            Ok(Err(())) => cx.verdict(false, "old_builder_rejects_edns", &tag, "opt() failed"),
+            Err(p) => cx.verdict(false, "panic_old_builder", &tag, &p),
+        }
+    }
+}
+
+fn edns_cases(cx: &mut Ctx, rng: &mut Rng, scale: usize) {
+    let cookie = (10u16, vec![6, 148, 57, 104, 176, 18, 234, 57]);
+    let optsets: Vec<Vec<(u16, Vec<u8>)>> = vec![vec![], vec![cookie.clone()], vec![(65001, vec![]), (65002, vec![1, 2, 3])], vec![(12, vec![0; 20]), cookie.clone()]];
+    // fixed: every field non-zero on its own and together (BADVERS = ext 1, BADCOOKIE = 23 -> ext 1 rcode 7)
+    for (udp, ext, ver, flags, rcode) in [(1232u16, 0u8, 0u8, 0u16, 0u8), (512, 1, 0, 0, 0), (4096, 0, 1, 0, 0), (1232, 1, 0, 0x8000, 7), (1232, 0, 0, 0x8000, 0), (65535, 2, 3, 0x8000, 1),
+                                         (0, 255, 0, 0, 15), (1, 0, 255, 0x4000, 0), (1400, 0x12, 0x34, 0x5678, 3), (1400, 0x34, 0x12, 0xffff, 3), (1232, 0, 0, 0x0001, 0), (1232, 0x80, 0x01, 0x7fff, 0)] {
+        for (i, os) in optsets.iter().enumerate() {
+            let want = Edns { udp, ext, ver, flags, do_: flags & 0x8000 != 0, data: opt_bytes(os) };
+            edns_one(cx, &want, rcode, i % 2 == 0, os);
+        }
+    }
+    for _ in 0..120 * scale {
+        let flags = match rng.below(4) { 0 => 0, 1 => 0x8000, 2 => rng.u16(), _ => 0x8000 | (rng.u16() & 0x00ff) };
+        let os: Vec<(u16, Vec<u8>)> = (0..rng.below(4)).map(|_| { let k = rng.below(12) as usize; (*rng.pick(&[3u16, 8, 10, 11, 12, 15, 65001, 0]), rng.bytes(k)) }).collect();
+        let want = Edns { udp: *rng.pick(&[0u16, 512, 1232, 4096, 65535, 1400]), ext: if rng.chance(1, 2) { rng.u8() } else { rng.below(3) as u8 }, ver: if rng.chance(1, 2) { rng.u8() } else { rng.below(2) as u8 }, flags, do_: flags & 0x8000 != 0, data: opt_bytes(&os) };
+        edns_one(cx, &want, rng.below(16) as u8, rng.chance(1, 2), &os);
+    }
+    // malformed option framing: both codecs must refuse the record alike
+    for tail in [vec![0u8, 10, 0, 9, 1, 2], vec![0, 10, 0], vec![0, 10, 0, 0, 0], vec![0, 10, 255, 255]] {
+        cx.idx += 1;
+        if !cx.out.wants(cx.idx) { continue; }
+        let mut m = header(0, 0, 0, 1); let pos = m.len();
+        m.extend_from_slice(&[0, 0, 41, 4, 208, 1, 0, 0x80, 0]); m.extend_from_slice(&(tail.len() as u16).to_be_bytes()); m.extend_from_slice(&tail);
+        let tag = format!("edns-raw {}", hex(&m));
+        cx.out.oracle_case(&tag, true, "edns:malformed");
+        let o = edns_old(&m); let n = edns_new(&m, pos);
+        let o_ok = matches!(o, Ok(Some(_)));
+        for (w, r) in ["parser", "try_from", "split_bytes"].iter().zip(n.iter()) {
+            let n_ok = matches!(r, Ok(Some(_)));
+            let panicked = matches!(r, Err(true)) || matches!(o, Err(true));
+            cx.verdict(!panicked, "panic_new", &tag, w);
+            cx.verdict(o_ok == n_ok, if o_ok { "accept_reject_mismatch_edns_old_accepts" } else { "accept_reject_mismatch_edns_new_accepts" }, &tag, &format!("old accepts={} new({}) accepts={}", o_ok, w, n_ok));
+        }
+    }
+}
+
 /// T2 for the compressor model: Name::build_in_message for a list of names,
 /// starting at contents offset `base` of a zeroed buffer; observation = the
 /// octets written.  Oracle: every name reads back (both readers) as pushed.
-fn bim_case(cx: &mut Ctx, base: usize, names: &[Vec<Vec<u8>>], kind: &str) {
+fn bim_case(cx: &mut Ctx, base: usize, names: &[Vec<Vec<u8>>], kind: &str) { bim_case_x(cx, base, names, kind, false); bim_case_x(cx, base, names, kind, true); }
+
+/// `rev`: the names are written as RevNameBuf (compress_revname); oracle only, no model counterpart
+fn bim_case_x(cx: &mut Ctx, base: usize, names: &[Vec<Vec<u8>>], kind: &str, rev: bool) {
     cx.idx += 1;
     if !cx.out.wants(cx.idx) { return; }
     let wires: Vec<Vec<u8>> = names.iter().map(|n| wire(n)).collect();
-    let case = format!("bim {} {}", base, wires.iter().map(|w| hex(w)).collect::<Vec<_>>().join(","));
+    let case = format!("{} {} {}", if rev { "bimrev" } else { "bim" }, base, wires.iter().map(|w| hex(w)).collect::<Vec<_>>().join(","));
     cx.out.begin(&case);
     let ws = wires.clone();
     let r = catch(move || {
@@ -743,26 +918,27 @@ fn bim_case(cx: &mut Ctx, base: usize, names: &[Vec<Vec<u8>>], kind: &str) {
         let mut comp = NameCompressor::default();
         let mut off = base; let mut starts = vec![];
         for w in &ws {
-            let n: &Name = <&Name>::parse_bytes(w).unwrap();
             starts.push(off);
-            off = n.build_in_message(&mut buf[12..], off, &mut comp).unwrap();
+            if rev { let n = RevNameBuf::parse_bytes(w).unwrap(); off = n.build_in_message(&mut buf[12..], off, &mut comp).unwrap(); }
+            else { let n: &Name = <&Name>::parse_bytes(w).unwrap(); off = n.build_in_message(&mut buf[12..], off, &mut comp).unwrap(); }
         }
         buf.truncate(12 + off);
         (buf, starts)
     });
     match r {
         Err(p) => {
-            cx.out.case(&case, "Panic", true, kind);
+            if rev { cx.out.oracle_case(&case, true, &format!("{}:rev", kind)); } else { cx.out.case(&case, "Panic", true, kind); }
             let cls = if p.contains("overflow") { "new_compressor_pointer_overflow" } else if p.contains("valid last label") { "new_compressor_label_boundary_panic" } else { "panic_new_builder" };
             cx.verdict(false, cls, &case, &p);
         }
         Ok((buf, starts)) => {
-            cx.out.case(&case, &format!("Ok {}", hex(&buf[12 + base..])), true, kind);
+            if rev { cx.out.oracle_case(&case, true, &format!("{}:rev", kind)); } else { cx.out.case(&case, &format!("Ok {}", hex(&buf[12 + base..])), true, kind); }
+            let bad = if rev { "new_revname_compressor_bad_pointer" } else { "new_compressor_bad_pointer" };
             for (w, st) in wires.iter().zip(starts.iter()) {
                 let n = new_split(&buf, 12 + st); let o = old_name(&buf, 12 + st);
                 let okn = matches!(&n, Obs::Ok(x, _) if lower(x) == lower(w));
                 let oko = matches!(&o, Obs::Ok(x, _) if lower(x) == lower(w));
-                cx.verdict(okn && oko, "new_compressor_bad_pointer", &case, &format!("name {} at contents offset {} reads back as new={} old={}", hex(w), st, n.show(), o.show()));
+                cx.verdict(okn && oko, bad, &case, &format!("name {} at contents offset {} reads back as new={} old={}", hex(w), st, n.show(), o.show()));
             }
         }
     }
@@ -840,6 +1016,34 @@ fn main() {
     // a push that does not fit, followed by pushes that do (new builder only)
     run_script(&mut cx, &[Op::Q(l(&["abc", "de"]), 1), Op::Q(l(&["de"]), 1)], "script:truncated", 22, false);
     run_script(&mut cx, &[Op::R(1, l(&["a", "de"]), 1, Rd::Raw(vec![1; 40])), Op::R(1, l(&["b", "de"]), 1, Rd::A([1, 2, 3, 4])), Op::R(1, l(&["c", "b", "de"]), 1, Rd::A([1, 2, 3, 4]))], "script:truncated", 12 + 45, false);
+    // folding collisions: a label LENGTH octet n must only ever match the octet n.
+    // For every n in 1..=63 an earlier name holds, inside one label, the octet f(n)
+    // followed by the n octets of the next name's label, for the foldings
+    // f = |0x20, ^0x20, &!0x20, +32 (what a sloppy case fold would identify with n).
+    for n in 1usize..=63 {
+        for f in [n | 0x20, n ^ 0x20, n & !0x20, n + 32, n.wrapping_sub(32) & 0xff] {
+            if f == n || f > 255 { continue; }
+            let x: Vec<u8> = (0..n).map(|i| b'a' + ((i * 7 + n) % 26) as u8).collect();
+            for lead in [1usize, 3] {
+                if lead + 1 + n > 63 { continue; }
+                let mut big = vec![b'k'; lead]; big.push(f as u8); big.extend_from_slice(&x);
+                let first = vec![big.clone(), b"com".to_vec()];
+                let second = vec![b"q".to_vec(), x.clone(), b"com".to_vec()];
+                bim_case(&mut cx, 0, &[first.clone(), second.clone()], "bim:fold");
+                // the colliding label in the middle of the earlier name / no shared tail
+                bim_case(&mut cx, 0, &[vec![b"w".to_vec(), big.clone(), b"com".to_vec()], second.clone(), vec![x.clone(), b"com".to_vec()]], "bim:fold");
+                bim_case(&mut cx, 0, &[vec![big.clone()], vec![b"q".to_vec(), x.clone()]], "bim:fold");
+            }
+        }
+    }
+    // octets that a `| 0x20` fold identifies but to_ascii_lowercase does not
+    for (a, b) in [(b'@', b'`'), (b'[', b'{'), (b'\\', b'|'), (b']', b'}'), (b'^', b'~'), (b'_', 0x7fu8), (0x00u8, b' '), (0x01u8, b'!'), (0x10u8, b'0'), (0x1fu8, b'?'), (0x80u8, 0xa0u8), (0xc1u8, 0xe1u8), (b'A', b'a'), (b'Z', b'z')] {
+        for (l1, l2) in [(vec![b'x', a, b'y'], vec![b'x', b, b'y']), (vec![a], vec![b]), (vec![b, b'm'], vec![a, b'm'])] {
+            bim_case(&mut cx, 0, &[vec![l1.clone(), b"org".to_vec()], vec![l2.clone(), b"org".to_vec()], vec![b"n".to_vec(), l2.clone(), b"org".to_vec()], vec![b"n".to_vec(), l1.clone(), b"org".to_vec()]], "bim:fold");
+        }
+    }
+    // EDNS
+    edns_cases(&mut cx, &mut rng, scale);
     // compressor alone (T2 against the model)
     bim_case(&mut cx, 0, &[l(&["b", "c"]), l(&["a", "c"]), l(&["x", "a", "b", "c"])], "bim:regress");
     bim_case(&mut cx, 0, &[l(&["a", "ab"]), l(&["\x01a", "ab"])], "bim:regress");
